@@ -662,6 +662,30 @@ func (g *G) collectionOrLit(t cty.Type, depth int, locals []Decl) *E {
 
 // Expr generates an expression conforming to a constraint.
 func (g *G) Expr(c schema.Constraint, depth int, locals []Decl) *E {
+	// collection constraints are not always written as literals: a for
+	// expression, a reference or a call is just as legal there
+	if !g.O.Simple && (g.coin(0.06) || (g.O.Shapes && g.coin(0.3))) {
+		switch c.(type) {
+		case schema.List, schema.Set, schema.Tuple:
+			switch g.pick(3) {
+			case 0:
+				return raw("[for x in " + g.refTo(locals, "", cty.NilType) + " : x]")
+			case 1:
+				return ref(g.refTo(locals, "", cty.NilType))
+			default:
+				return raw("tolist(" + g.refTo(locals, "", cty.NilType) + ")")
+			}
+		case schema.Map, schema.Object:
+			switch g.pick(3) {
+			case 0:
+				return raw("{ for k, v in " + g.refTo(locals, "", cty.NilType) + " : k => v }")
+			case 1:
+				return ref(g.refTo(locals, "", cty.NilType))
+			default:
+				return raw("tomap(" + g.refTo(locals, "", cty.NilType) + ")")
+			}
+		}
+	}
 	switch c := c.(type) {
 	case schema.AnyExpression:
 		return g.anyExpr(c.OfType, depth, locals)
